@@ -198,6 +198,11 @@ func scenarioReplay(verif, file, workdir, repo string) *ReplayResult {
 	}
 	testFile := filepath.Join(workdir, "plencvc_scn_test.go")
 	os.WriteFile(testFile, src, 0o644)
+	sub := "."
+	if first := strings.SplitN(string(src), "\n", 2)[0]; strings.HasPrefix(first, "// dir: ") {
+		sub = strings.TrimSpace(strings.TrimPrefix(first, "// dir: "))
+	}
+	repo = filepath.Join(repo, sub)
 	ov := map[string]map[string]string{"Replace": {filepath.Join(repo, "plencvc_scn_test.go"): testFile}}
 	ovb, _ := json.Marshal(ov)
 	ovFile := filepath.Join(workdir, "overlay_scn.json")
